@@ -45,6 +45,16 @@ func c13Policies(ctx *core.Ctx) [][]spec.Op {
 			spec.Op{K: spec.KAllowAttrs, Attrs: []string{"id", "class"}, Re: `^[0-9]+$`, Scope: "match", ElRe: `^my-x$`, Fresh: true},
 			spec.Op{K: spec.KAllowAttrs, Attrs: []string{"id"}, Re: `^x-[a-z0-9]*$`, Scope: "match", ElRe: `-`},
 			spec.Op{K: spec.KAllowNoAttrs, Scope: "match", ElRe: `^[a-z]{1,3}$`},
+			// several rules for the same attribute on the same pattern object (slices with spare capacity):
+			// merging them per call must never write into the policy's own slices
+			spec.Op{K: spec.KAllowAttrs, Attrs: []string{"id"}, Re: `^[0-9]+$`, Scope: "match", ElRe: `^my-`},
+			spec.Op{K: spec.KAllowAttrs, Attrs: []string{"id"}, Re: `^#[a-f]{3}$`, Scope: "match", ElRe: `^my-`},
+			spec.Op{K: spec.KAllowAttrs, Attrs: []string{"id", "title"}, Re: `^_[A-Z]+$`, Scope: "match", ElRe: `-`},
+			spec.Op{K: spec.KAllowAttrs, Attrs: []string{"id"}, Re: `^[0-9]+$`, Scope: "match", ElRe: `-`},
+			spec.Op{K: spec.KAllowAttrs, Attrs: []string{"id"}, Re: `(?i)^(left|right)$`, Scope: "match", ElRe: `-`},
+			spec.Op{K: spec.KAllowAttrs, Attrs: []string{"id"}, Re: `^#[a-f]{3}$`, Scope: "match", ElRe: `-`},
+			spec.Op{K: spec.KAllowAttrs, Attrs: []string{"id"}, Re: `^[a-z]+$`, Scope: "match", ElRe: `^my-x$`},
+			spec.Op{K: spec.KAllowAttrs, Attrs: []string{"id"}, Re: `^x-[a-z0-9]*$`, Scope: "match", ElRe: `^my-x$`},
 			spec.Op{K: spec.KAllowStyles, Attrs: []string{"color", "width"}, Matcher: "default", Scope: "global"},
 			spec.Op{K: spec.KAllowStyles, Attrs: []string{"color", "margin"}, Matcher: "re", Re: `^[a-z]+$`, Scope: "match", ElRe: `^my-`},
 			spec.Op{K: spec.KAllowStyles, Attrs: []string{"color"}, Matcher: "enum", Enum: []string{"red", "blue"}, Scope: "match", ElRe: `-`},
@@ -174,6 +184,10 @@ func c13Stress(ctx *core.Ctx, only int) {
 		pool := gen.CSSTokenPool()
 		for i := range inputs {
 			inputs[i] = env.HostileInput(r)
+			if cs.Index >= 3 && cs.Index <= 5 && i%3 == 0 { // elements matched by several patterns at once, values accepted by one rule only
+				el := gen.Pick(r, []string{"my-x", "my-y", "x-foo", "my-"})
+				inputs[i] = fmt.Sprintf(`<%s id="%s" title="%s" class="%s">t</%s>`, el, gen.Pick(r, []string{"abc", "42", "#abc", "_AB", "left", "x-a1", "zz9", "NO"}), gen.Pick(r, []string{"abc", "_XY", "1"}), gen.Pick(r, []string{"7", "x"}), el)
+			}
 			if cs.Index == 6 && i%2 == 0 { // the all-handlers policy: style-heavy inputs over all documented properties
 				var b strings.Builder
 				for k := 0; k < 1+r.Intn(5); k++ {
